@@ -86,10 +86,6 @@ def c14sqSpec (cols : List String) (rows : List XRow) (o : List (String × Cell)
         | _, _, _ => false
        else (o.lookup "cn2").isNone)
 
-def c14sqToSeg (h : Bool) (r : XRow) : Seg :=
-  { chrom := r.chrom, s := r.s, e := r.e, gene := r.gene, log2 := r.log2, probes := r.probes, weight := r.weight,
-    cn := some r.cn, cn1 := if h then some r.cn1 else none, cn2 := if h then some (r.cn - r.cn1) else none }
-
 def c14sqSplit : List Nat → List XRow → List (List XRow)
   | [], _ => []
   | n :: ns, l => l.take n :: c14sqSplit ns (l.drop n)
@@ -110,7 +106,7 @@ def handleSegFilterExt5 (op : String) (inp : Json) (impl : Option Json) : R (Opt
     let cols ← getList getStr (← fld inp "cols")
     let rows ← getList c14sqGetRow (← fld inp "rows")
     let h := cols.contains "cn1"
-    let runs := c14sqSplit ((splitRuns (fullLevel h levelCn) (rows.map (c14sqToSeg h))).map List.length) rows
+    let runs := c14sqSplit ((splitRuns (fullLevel h levelCn) (rows.map (toSeg h))).map List.length) rows
     let spec ← (match impl with
       | none => pure Json.null
       | some ij => do
